@@ -62,13 +62,14 @@ func (c *CronStore) updateTask(added, removed []*Entry) error {
 	}
 
 	for _, ent := range added {
-		next := ent.Next()
+		// entries are advanced only after the whole update is accepted.
+		next := ent.Param()
 		key := paramToSerializable(next)
 
 		_, cHas := c.entries[key]
 		_, addedHas := entryMap[key]
 		_, willRemove := removedKeys[key]
-		if !willRemove && (cHas || addedHas) {
+		if addedHas || (cHas && !willRemove) {
 			return fmt.Errorf(
 				"given entry is serialized to the value"+
 					" which overlaps to existing *Entry, serialized to %#v",
@@ -115,6 +116,7 @@ func (c *CronStore) updateTask(added, removed []*Entry) error {
 	}
 
 	for key, set := range entryMap {
+		set.entry.Next()
 		c.entries[key] = set.entry
 		c.schedule.Push(set.wrappedTask)
 	}
